@@ -889,6 +889,15 @@ impl LightClientProtocol {
                 .start_number(real_start_number.pack())
                 .difficulty_boundary(start_total_difficulty.pack())
         } else {
+            if start_total_difficulty == last_total_difficulty {
+                // Blocks are sampled by total difficulties, so the difficulty range between the
+                // start block and the last block should NOT be empty.
+                warn!(
+                    "total difficulty ({:#x}) isn't increased from block#{} to block#{}",
+                    last_total_difficulty, start_number, last_number
+                );
+                return None;
+            }
             let (difficulty_boundary, difficulties) = sampling::sample_blocks(
                 start_number,
                 &start_total_difficulty,
